@@ -17,7 +17,7 @@ DVKINDS = [k for k in KINDS if k != "u8c"]
 OTHER = ["every", "some", "find", "findIndex", "findLast", "findLastIndex", "forEach", "map", "filter", "toSorted",
          "reduce", "reduceRight", "indexOf", "lastIndexOf", "includes", "at", "join", "with", "toReversed",
          "toString", "toLocaleString", "keys", "values", "entries", "iterate", "export"]
-PROPS_MIN = 50
+PROPS_MIN = 62
 
 
 def f64(x):
@@ -154,7 +154,11 @@ class Gen:
                 otok, ltok = str(off * es), str(ln)
             d1, d2 = (self.dets() if otok != "_" else []), (self.dets() if ltok != "_" else [])
             d0 = self.dets() if r.random() < 0.3 else None
-            self.lines.append("V %s %d %s %s" % (k, b, self.bang(otok, d1), self.bang(ltok, d2)) + ("" if d0 is None else " ^" + ",".join(map(str, d0))))
+            if d0 is None and r.random() < 0.2:
+                # a user subclass of the typed array constructor (species = the subclass)
+                self.lines.append("V %s %d %s %s ^s" % (k, b, self.bang(otok, d1), self.bang(ltok, d2)))
+            else:
+                self.lines.append("V %s %d %s %s" % (k, b, self.bang(otok, d1), self.bang(ltok, d2)) + ("" if d0 is None else " ^" + ",".join(map(str, d0))))
             self.apply((d0 or []) + d1 + d2)
             if not self.bufs[b]["det"]:
                 self.views.append({"k": k, "b": b, "off": off, "len": ln})
@@ -240,8 +244,15 @@ class Gen:
             n = self.bufs[b]["n"]
             a, av, d1 = self.iarg(n)
             e, ev, d2 = self.iarg(n)
-            self.lines.append("A %d %s %s" % (b, a, e))
             l0 = 0 if self.bufs[b]["det"] else n
+            if r.random() < 0.35:
+                # user species constructor returning an existing buffer (possibly the receiver itself, too small, detached)
+                nb = r.randrange(len(self.bufs))
+                d3 = self.dets()
+                self.lines.append("A %d %s %s %s" % (b, a, e, self.bang(str(nb), d3)))
+                self.apply(d1 + d2 + d3)
+                return
+            self.lines.append("A %d %s %s" % (b, a, e))
             self.apply(d1 + d2)
             st = self.rel(av if av is not None else 0, l0)
             en = self.rel(ev if ev is not None else l0, l0)
@@ -417,7 +428,7 @@ class Gen:
                 self.apply(d)
         elif o == "e":
             m = r.choice(VISIT)
-            if m in ("values", "entries") or L == 0 or r.random() < 0.5:
+            if L == 0 or r.random() < 0.5:
                 self.lines.append("e %s %d _" % (m, vi))
             else:
                 kk = r.randrange(L)
@@ -458,15 +469,25 @@ class Gen:
                         fresh = L
             elif o == "t":
                 bits = "".join(r.choice("01") for _ in range(L)) or "-"
+                sp, di, d3 = self.species(v["k"])
+                sptok = "" if sp == "_" else " " + sp
                 if L > 0 and r.random() < 0.5:
                     k = r.randrange(L)
                     d = self.dets(force=True)
-                    self.lines.append("t %d %s %s" % (vi, bits, self.bang(str(k), d) if d else "_"))
+                    self.lines.append("t %d %s %s%s" % (vi, bits, self.bang(str(k), d) if d else "_", sptok))
                     if att0:
                         self.apply(d)
                 else:
-                    self.lines.append("t %d %s _" % (vi, bits))
-                fresh = bits.count("1") if att0 else None
+                    self.lines.append("t %d %s _%s" % (vi, bits, sptok))
+                if di is None:
+                    fresh = bits.count("1") if att0 else None
+                elif att0:
+                    self.apply(d3)
+                    w = self.views[di]
+                    cnt1 = bits.count("1")
+                    mixed = (w["k"] in ("bi64", "bu64")) != (v["k"] in ("bi64", "bu64"))
+                    if not self.bufs[w["b"]]["det"] and w["len"] >= cnt1 and not (mixed and cnt1 > 0):
+                        self.views.append(dict(w))
             else:
                 n = L if r.random() < 0.85 else max(0, L + r.choice([-1, 1]))
                 n = min(n, 12)
@@ -650,7 +671,7 @@ def search_cases():
 
 VISIT = ["every", "some", "find", "findIndex", "findLast", "findLastIndex", "forEach", "reduce", "reduceRight", "values", "entries"]
 
-FLAG_RE = re.compile(r"\b(CANARY|POSTDETACH|ALIAS-VIEW|ALIAS)!(\d+)")
+FLAG_RE = re.compile(r"\b(CANARY|POSTDETACH|ALIAS-VIEW|ALIAS|PROTOHIT)!(\d+)")
 
 
 def classify(op_line, impl, model):
@@ -665,7 +686,7 @@ def classify(op_line, impl, model):
         opk += ":default-species" if op[2] == "_" else ":user-species"
     m = FLAG_RE.search(impl or "")
     if m:
-        return {"CANARY": "canary-hit", "POSTDETACH": "write-after-detach", "ALIAS": "alias-broken", "ALIAS-VIEW": "alias-broken"}[m.group(1)] + ":" + opk
+        return {"CANARY": "canary-hit", "POSTDETACH": "write-after-detach", "ALIAS": "alias-broken", "ALIAS-VIEW": "alias-broken", "PROTOHIT": "prototype-accessor-consulted"}[m.group(1)] + ":" + opk
     if impl is None:
         return "harness-died:" + opk
     if impl.startswith("PANIC"):
@@ -818,7 +839,7 @@ def view_kinds(lines, outs):
             kinds.append(w[1])
         elif w[0] in ("R", "T", "w", "t"):
             try:
-                kinds.append(kinds[int(w[1])])
+                kinds.append(kinds[int(w[4].split("!")[0])] if (w[0] == "t" and len(w) > 4 and w[4] != "_") else kinds[int(w[1])])
             except (IndexError, ValueError):
                 kinds.append("?")
         elif w[0] == "M":
@@ -941,6 +962,33 @@ def report(ctx, runner, failures, limit=8):
     return unprocessed
 
 
+EXTRA_AUDIT = ["GojaModel.C17.Refine", "GojaModel.C17.Overlap", "GojaModel.C17.Sort", "GojaModel.C17.Float32", "GojaModel.C17.Bytes"]
+EXTRA_AUDIT_MIN = 60
+
+
+def audit_extra(ctx):
+    """axiom audit of the modules that hold the byte-level refinement theorems (one Lean process for all of them);
+    same rule as ctx.audit: one obligation per theorem, axioms ⊆ {propext, Classical.choice, Quot.sound}"""
+    d = os.path.join(BUILD, "audit")
+    os.makedirs(d, exist_ok=True)
+    f = os.path.join(d, "GojaModel_C17_extra.lean")
+    with open(f, "w") as fh:
+        fh.write("import GojaModel.Audit\n" + "".join("import %s\n" % m for m in EXTRA_AUDIT) + "".join("#audit_module %s\n" % m for m in EXTRA_AUDIT))
+    ctx.checker_cmds.append("cd lean && lake env lean <audit:%s>" % ",".join(EXTRA_AUDIT))
+    rc, out, err = sh(["lake", "env", "lean", f], cwd=LEAN, timeout=3600)
+    n = 0
+    for m in re.finditer(r"AUDIT (\S+) ::(.*)$", out, re.M):
+        axs = set(m.group(2).split())
+        bad = sorted(axs - ALLOWED_AXIOMS)
+        n += 1
+        ctx.obligation("thm:" + m.group(1), "theorem", not bad, ("axioms: " + " ".join(sorted(axs))) if not bad else ("forbidden axioms: " + " ".join(bad)))
+    done = out.count("AUDIT-DONE")
+    if rc != 0 or done != len(EXTRA_AUDIT):
+        ctx.obligation("audit:C17-extra", "theorem", False, (out + err)[-1500:])
+    elif n < EXTRA_AUDIT_MIN:
+        ctx.obligation("audit:C17-extra", "theorem", False, "only %d theorems found, expected >= %d" % (n, EXTRA_AUDIT_MIN))
+
+
 def main(ctx):
     quick = ctx.tier == "quick"
     import threading
@@ -949,14 +997,15 @@ def main(ctx):
     th = threading.Thread(target=lambda: hres.setdefault("h", ctx.go_build()))
     th.start()
     regen_ok = ctx.regen()
-    ok, errs = ctx.lake_build(["GojaModel.C17.Props", "GojaModel.C17.Tie", "model_c17"])
+    ok, errs = ctx.lake_build(["GojaModel.C17.Props", "GojaModel.C17.Tie", "GojaModel.C17.Bytes", "model_c17"])
     ctx.log("lake build done (ok=%s)" % ok)
     ta = []
     if ok:
         # the axiom audit (and leanchecker in the thorough tier) only reads the built .olean files: it runs
         # concurrently with the correspondence and is joined before the verdict
         ta = [threading.Thread(target=ctx.audit, args=("GojaModel.C17.Props",), kwargs={"expect_min": PROPS_MIN}),
-              threading.Thread(target=ctx.audit, args=("GojaModel.C17.Tie",), kwargs={"expect_min": 8})]
+              threading.Thread(target=ctx.audit, args=("GojaModel.C17.Tie",), kwargs={"expect_min": 13})]
+        ta.append(threading.Thread(target=audit_extra, args=(ctx,)))
         if not quick:
             ta.append(threading.Thread(target=ctx.leanchecker, args=("GojaModel.C17.Props",)))
         for t in ta:
